@@ -571,6 +571,8 @@ def _reduce_cmp(a, axis, keepdims, f, canon=False):
     arr = a._a
     if axis is None:
         flat = list(arr.reshape(-1))
+        if not flat:
+            raise ValueError('zero-size array to reduction operation which has no identity')
         if canon:
             flat = _canon_sorted(flat)
         acc = flat[0]
